@@ -91,6 +91,7 @@ func main() {
 	writeIfChanged(filepath.Join(out, "IncludeName.v"), genIncludeName(repo, jerrConsts))
 	writeIfChanged(filepath.Join(out, "ErrConsts.v"), genErrConsts(jerrConsts))
 	writeIfChanged(filepath.Join(out, "Inventory.v"), genInventory(repo))
+	writeIfChanged(filepath.Join(out, "JsonTags.v"), genJSONTags(repo))
 }
 
 // ---------------------------------------------------------------------------------------
